@@ -6,7 +6,7 @@ pairing of ``events_to_objs``.
 """
 import random
 
-from .. import cases, corpus, probes
+from .. import cases, cmp, corpus, probes
 from .. import refmodel as R
 from .. import trace as TR
 
@@ -65,6 +65,13 @@ def check_stream(case, rec):
             return
         per_message.append((m, t))
         singles.extend(t.events)
+        # the individual decode must itself be the interpretation of these bytes under *this* message's command code
+        # (a defect common to the stream path and the single path would otherwise cancel out in the comparison below)
+        mref = R.decode("Command" if m.kind == "command" else "Response", b, cc=m.cc if m.kind == "response" else None, enc=m.enc if m.kind == "response" else None)
+        mm = cmp.ev_mismatch(mref.events, t.mevents) if mref.outcome.kind == "ok" else None
+        if mm:
+            rec.violation("single-vs-reference", f"{m.kind}:{mm['what']}", f"{case.short()}\nmessage {m} decoded alone: event #{mm['index']} {mm['what']}: decoder {mm['got']} reference {mm['expected']}", case.replay())
+            return
     if len(singles) != len(ts.events) or not all(same(a, b) for a, b in zip(ts.events, singles)):
         i = next((i for i, (a, b) in enumerate(zip(ts.events, singles)) if not same(a, b)), min(len(singles), len(ts.events)))
         a = ts.events[i] if i < len(ts.events) else None
